@@ -22,6 +22,10 @@ inductive WriteClass where
   | synchronised
   /-- package-level variable -/
   | global
+  /-- a package-level variable (its address, or the pointer / map / slice / interface it holds) handed as
+      receiver or argument to a call that is not in the translator's read-only list (`regexp`, `reflect`,
+      `fmt`, `strings`, …): the callee may write through it (`sync.Map.Store`, `sync.Pool.Put`, a setter) -/
+  | globalCall
   deriving DecidableEq, Repr
 
 structure WriteFact where
@@ -40,3 +44,21 @@ structure WriteFact where
 time and no package-level variable is written outside init". -/
 def WriteFact.offending (w : WriteFact) : Bool :=
   w.cls = .capturedEscaping ∨ (w.cls = .global ∧ !w.inInit)
+
+/-- The package-level variables that the library hands to calls outside the read-only list, each
+audited by reading the callee: none of them is written through.
+* `expressions.closureType`, `expressions.interfaceType`: `reflect.Type` values, used as the argument of
+  `Type.ConvertibleTo` (an interface method call; reflect types are immutable);
+* `render.invalidLoc`: a zero `parser.SourceLoc`-carrying token passed by value as the `Locatable` of
+  `wrapRenderError` / `renderErrorf`, which only call its `SourceLocation()` / `SourceText()`;
+* `tags.errLoopBreak`, `tags.errLoopContinueLoop`: sentinel `error` values passed to `ctx.WrapError`, which
+  wraps (reads) them. -/
+def auditedGlobalCalls : List (String × String) := [
+  ("expressions", "closureType"), ("expressions", "interfaceType"),
+  ("render", "invalidLoc"),
+  ("tags", "errLoopBreak"), ("tags", "errLoopContinueLoop")
+]
+
+/-- a `globalCall` fact outside `init` must name an audited variable -/
+def WriteFact.unauditedGlobalCall (w : WriteFact) : Bool :=
+  w.cls = .globalCall && !w.inInit && !(auditedGlobalCalls.any fun a => a.1 == w.pkg && a.2 == w.var)
